@@ -20,6 +20,7 @@ BASES = [
     b"A (1,2)", b"A (@1:3,5)", b"A ()", b"A (1),(2)", b"A (@1!2,3!4:5!6)", b"A (1,2:3,-4.5e1)", b"A (@1!2!3)",
     b"A 1 ,2", b"A 1, 2", b"A 1 , 2 ;B", b"A ;B", b"A; B", b"A ; B", b"A\n", b"A \n", b"A?;B?\n", b"A? 1;*IDN?", b"A;",
     b"*IDN;:A", b"*A;AB:A?", b"A;*IDN;B 1", b"*IDN?;:SYST:ERR?",
+    b"A #HFFFFFFFFFFFFFFFF", b"A #Q1777777777777777777777", b"A #B" + b"1" * 64, b"A #9000000005hello,1", b"A #40002ab;B",
     b"A 255", b"A 256", b"A 65536", b"A 32768", b"A 2147483648", b"A 4294967296", b"A 9223372036854775808", b"A 18446744073709551616", b"A -129,-32769",
     b"A ON\r\n", b"A 1;B 'x'\r\n", b"A? #13abc \r\n", b"A (1)\x0c;B\r", b"A\r\n",
     b"SYST:ERR?", b"SYSTem:ERRor:NEXT?;COUN?", b":SYST:ERR:COUN?;:AB:A 'x',#11y,(z),Q,#H1,1 S,2",
@@ -28,7 +29,9 @@ BASES = [
 
 
 # long / malformed inputs that are only listed (no corruption): over-long elements far beyond every limit
-LISTED = [b"A '" + b"s" * 300 + b"'", b"A #3300" + b"b" * 300, b"A #3301" + b"b" * 300, b"A '" + b"s" * 300, b"A " + b"X" * 256, b"A " + b"X" * 270, b"A 1 " + b"S" * 256, b"Y" * 260 + b" 1", b"A " + b"9" * 300, b"A 1e" + b"9" * 300,
+LISTED = [b"A #%d%s%s" % (w, (b"%d" % 5).rjust(w, b"0"), b"he;,o") for w in range(1, 10)] + [b"A #%d%s%s,2" % (w, (b"%d" % 12).rjust(w, b"0"), b"0123456789\n'") for w in range(2, 10)] + [
+          b"A #HFFFFFFFFFFFFFFF" + bytes([c]) for c in b"0123456789ABCDEFabcdef"] + [b"A #Q177777777777777777777" + bytes([c]) for c in b"01234567"] + [
+          b"A #B" + b"1" * 63 + b"0", b"A #b" + b"0" * 30 + b"1" * 64, b"A #H0000000000000000000FFFFFFFFFFFFFFFF", b"A #H10000000000000000", b"A #Q2000000000000000000000", b"A #B1" + b"0" * 64] + [b"A '" + b"s" * 300 + b"'", b"A #3300" + b"b" * 300, b"A #3301" + b"b" * 300, b"A '" + b"s" * 300, b"A " + b"X" * 256, b"A " + b"X" * 270, b"A 1 " + b"S" * 256, b"Y" * 260 + b" 1", b"A " + b"9" * 300, b"A 1e" + b"9" * 300,
           b"A #H" + b"F" * 300, b"A (" + b"1," * 200 + b"1)", b"A (@" + b"1!" * 200 + b"1)", b"A " + b"1," * 300 + b"1", b":" * 300, b";" * 300,
           b"A" + b":A" * 200, b"A?" + b";A?" * 200, b"*" + b"Z" * 300]
 
